@@ -137,7 +137,15 @@ def match_finding(pid, sig):
     for f in load_findings().get("findings", []):
         if f.get("property") != pid:
             continue
-        if all(str(sig.get(k)) == str(v) for k, v in f.get("match", {}).items()):
+        ok = True
+        for k, v in f.get("match", {}).items():
+            if k.endswith("_prefix"):
+                ok = ok and str(sig.get(k[:-7], "")).startswith(str(v))
+            elif isinstance(v, list):
+                ok = ok and sig.get(k) in v
+            else:
+                ok = ok and str(sig.get(k)) == str(v)
+        if ok:
             return f
     return None
 
